@@ -45,7 +45,7 @@ def provHandle (st : ProvSt) (cmd : String) (a : Args) : ProvSt × String :=
       let t : PTask := { t0 with uncollectable := a.get "unc" == "1", failsLate := a.get "late" == "1" }
       match parent with
       | none => ({ st with tasks := st.tasks.filter (·.id != id) ++ [t] }, "ok")
-      | some g => ({ st with kids := st.kids.filter (·.2.id != id) ++ [(g, t)] }, "ok")
+      | some g => ({ st with kids := st.kids.filter (fun e => !(e.1 == g && e.2.id == id)) ++ [(g, t)] }, "ok")   -- keyed by (generator, name): two generators may define tasks of one name
     | _, _, _, _, _, _, _, _, _ => (st, "bad-op")
   | "prov.perfile" =>
     match (a.get "gen").toNat?, (a.get "base").toNat? with
